@@ -73,6 +73,10 @@ func ruleSharedFieldInventory(c *Ctx, rule string) {
 				c.ob(rule, nil, "field "+key+" of a shared object is classified", nil, true, "synchronisation primitive / channel")
 				continue
 			}
+			if lk := la.autoG[key]; lk != "" {
+				c.ob(rule, nil, "field "+key+" of a shared object is classified", nil, true, "written after construction and in no table: treated as guarded by "+lk+" (the guarded-by rule checks every access)")
+				continue
+			}
 			if why, ex := sharedFieldExempt[key]; ex {
 				c.exempt(rule, nil, "field "+key, nil, why)
 				continue
